@@ -2,10 +2,10 @@
 SPECIFICATION Spec
 CONSTANTS Kinds = {"NM"}
   NP = 2
-  MaxGen = 2
-  MaxInst = 4
-  MaxCells = 14
-  Settings <- PSettings
+  MaxGen = 3
+  MaxInst = 3
+  MaxCells = 12
+  Settings <- WNonDiv
   Design = "ok"
-  MaxOps = 5
-INVARIANT NeverTwoFromOne
+  MaxOps = 3
+INVARIANT NeverStopRestoredNonDividing
